@@ -211,7 +211,17 @@ func (p *vProc) PostProcessProperties(props []*component_definition.Property, c 
 	// iterate points in a fixed order (GetAllProperties ranges over a map)
 	for pt := 0; pt < 4; pt++ {
 		for _, pr := range props {
-			if pointIndex(pr.StructField.Name) != pt || e.chosen[v.idx][pt] {
+			if pointIndex(pr.StructField.Name) != pt {
+				continue
+			}
+			if e.chosen[v.idx][pt] {
+				// a repeated creation attempt: the resolution nominates the same candidates again
+				// (the factory forgets what an earlier attempt collected)
+				if len(pr.Injects) == 0 {
+					for _, t := range e.choice[v.idx][pt] {
+						pr.Injects = append(pr.Injects, e.metas[t])
+					}
+				}
 				continue
 			}
 			e.chosen[v.idx][pt] = true
@@ -841,6 +851,80 @@ func VerifC04B() {
 		nd.Assert(!e.f.singletonComponentRegistry.IsSingletonCurrentlyInCreation(e.nodes[i].name), "C04: a published name is no longer reported as in creation")
 		c2, _ := e.f.GetComponentByName(e.nodes[i].name)
 		nd.Assert(c2 == c, "C04: once published, the same instance is returned")
+	}
+}
+
+// ---------------------------------------------------------------------------
+// C03/C04 retry histories with a substituting processor: a creation attempt fails
+// (a callback of a solver-chosen component fails once), the application looks the
+// components up again, the attempt is repeated.  Whatever ends up published must be
+// what every PUBLISHED holder sees - also holders that were created and published
+// inside the attempt that failed.
+// ---------------------------------------------------------------------------
+
+func VerifC03Retry() {
+	n := nd.Param("N", 2)
+	e := newMC(n, nd.Param("POINTS", 1), nd.Param("LAZY", 1) == 1, 2, nd.Param("FAULTS", 1))
+	e.wrapNode = nd.Choose(n)
+	e.wrapEarly = nd.Bool()
+	e.wrapAfter = nd.Bool()
+	e.sameWrapper = nd.Bool()
+	err := e.f.Refresh()
+	if err != nil {
+		nd.Cover("start failed")
+	} else {
+		nd.Cover("start ok")
+	}
+	rounds := nd.Param("LOOKUPS", 2)
+	for k := 0; k < rounds; k++ {
+		i := nd.Choose(n)
+		if _, lerr := e.f.GetComponentByName(e.nodes[i].name); lerr != nil {
+			nd.Cover("lookup after failure reports an error")
+		}
+	}
+	pub := make([]any, n)
+	isPub := make([]bool, n)
+	for i := range e.nodes {
+		// only what is published already: the oracle itself must not start creations
+		if m, gerr := e.f.singletonComponentRegistry.GetSingleton(e.nodes[i].name, false); gerr == nil && m != nil && !e.f.singletonComponentRegistry.IsSingletonCurrentlyInCreation(e.nodes[i].name) {
+			c1, err1 := e.f.GetComponentByName(e.nodes[i].name)
+			nd.Assert(err1 == nil && c1 == m.Raw, "C04: once published, the same instance is returned")
+			pub[i], isPub[i] = c1, true
+		}
+	}
+	if len(e.faults) > 0 {
+		nd.Cover("fault injected")
+	}
+	for hi, h := range e.nodes {
+		if !isPub[hi] {
+			continue
+		}
+		for _, pt := range []int{0, 1} {
+			tg := e.choice[hi][pt]
+			fld := e.fieldOf(h, pt)
+			if len(tg) != 1 || fld == nil || !isPub[tg[0]] {
+				continue
+			}
+			t := tg[0]
+			if len(e.wrappers) > 0 {
+				nd.Cover("wrapped")
+			}
+			if e.count(evConfig, t) >= 2 {
+				nd.Cover("target published by a repeated attempt")
+			}
+			// finding class: the holder was completed inside an attempt of its target that failed later
+			nd.Known("C03/holder-published-inside-a-failed-attempt", e.count(evConfig, t) >= 2 && e.lastAt(evAfter, hi) < e.lastAt(evConfig, t) && hi != t)
+			nd.Assert(fld == pub[t], "C03: after a repeated creation attempt every published holder sees the published version")
+		}
+		for _, el := range h.S0 {
+			ok := false
+			for _, t := range e.choice[hi][2] {
+				if el == pub[t] || !isPub[t] {
+					ok = true
+				}
+			}
+			nd.Assert(ok, "C03: after a repeated creation attempt every slice element is a published version")
+		}
 	}
 }
 
